@@ -166,6 +166,17 @@ CLAIMED["C14"] = dict(
     technique="contract-based deductive verification: sequence/bit-vector VCs over the real AST (z3, cvc5) + AST dataflow at construction sites",
     design="DESIGN.md §3 C14")
 
+CLAIMED["C16"] = dict(
+    text="The glue between the e-mail libraries and the result objects is proved on the real AST: the mbox split returns exactly the "
+         "slices between consecutive separator matches, in order (loop invariant over the processed prefix); a postcondition per "
+         "EmailContent field for the mbox, eml and msg mappings; body selection = first text/plain and first text/html non-attachment part "
+         "in walk() order; attachment routing through the C07 router; only the encrypted error escapes attachment iteration. One "
+         "recorded known finding: mbox results carry no attachments.",
+    note="Assumed (uninterpreted, listed in evidence): stdlib email API, mailparser attribute shapes, msg_parser properties, re.finditer, "
+         "bytes.decode raising only LookupError. RFC 2047 / MIME decoding correctness itself lives in those libraries and is NOT decided.",
+    technique="contract-based deductive verification: glue contracts over assumed library contracts, loop invariants on the real AST, z3",
+    design="DESIGN.md §3 C16")
+
 PENDING = {}
 
 ALL = [f"C{i:02d}" for i in range(1, 21)]
